@@ -29,7 +29,7 @@ NoJob == [ex |-> FALSE, started |-> FALSE, st |-> 0, kill |-> 0, del |-> FALSE, 
 NoPass == [now0 |-> 0, j |-> NoJob, p |-> <<>>, stale |-> FALSE, skew |-> FALSE]
 
 \* any injected fault or crash so far in this run (C20 attribution)
-IsFault(e) == ("f" \in DOMAIN e.l /\ e.l.f \notin {"", "ok"}) \/ e.ev \in {"CrashRestart", "Restart", "Crash"}
+IsFault(e) == ("f" \in DOMAIN e.l /\ e.l.f \notin {"", "ok"}) \/ e.ev \in {"CrashRestart", "Restart", "Crash", "FailDeletes"}
 Fail(name, ok) == IF ok THEN {} ELSE {name}
 EverOf(s) == {[name |-> p.name, idx |-> p.idx, retry |-> p.retry] : p \in Range(s.ever)}
 SuccOf(s) == Range(s.succ)
@@ -57,7 +57,7 @@ StateFails(e, sr) ==
     \cup Fail("C10_FailOnly", C10_FailOnly(c, s.job, s.pods, EverOf(s), sr))
     \cup Fail("C10_RefMatchesTask", C10_RefMatchesTask(s.job, s.pods))
     \cup Fail("C11_Coherent", C11_Coherent(s.job))
-    \cup Fail("C20_Converges", e.ev # "DrainFailed")
+    \cup Fail("C20_Converges", e.ev \notin {"DrainFailed", "Hang"})     \* the drain ran out of budget, or a pass blocked for good
     \* deadline goals hold at every quiet point of the drain (the clock has moved, the armed re-sync has fired, nothing is left to do)
     \cup (IF e.ev # "Quiet" THEN {} ELSE
              Fail("C10_Reaches", C10_ReachesAt(c, s.job, s.pods, NoKube(s), s.now))
